@@ -8,6 +8,9 @@
 import PydapModel.Proxy
 import Proofs.Proxy
 import Proofs.ProjSrc
+import PydapModel.Derive
+import Proofs.Derive
+import Props.C04
 namespace Pydap.C14
 open Pydap Pydap.Proxy
 
@@ -151,6 +154,100 @@ example : gridResult ⟨[], [.var ['g'] (.vals [(false, [0, 1]), (false, [0, 1, 
       .var ['y'] (.vals [(false, [0, 1, 2])]), .grid [0, 1, 2] true], [], []⟩ 3 [Idx.int 1]
     = some [.var ['g'] (.vals [(true, [1]), (false, [0, 1, 2])]), .var ['x'] (.vals [(true, [1])]),
             .var ['y'] (.vals [(false, [0, 1, 2])])] := by decide
+
+
+/-! ### a derived object reads what its selection names on the source rows (client model ∘ server model of C04)
+
+`Derive.DStep` = the derivations of the property (column list, filter on the object's own columns, slice, integer,
+child, filter on a single column written with the columns of the opened sequence).  The derived proxy of the heap
+model writes its request (`SeqClient.objQuery`: `SequenceProxy.url`, all three branches of `_projection`), the server
+model of C04 reads and answers it (`SeqClient.serveQuery`: `parse_ce`, `apply_selection`, `apply_projection`, any of
+the three backends), and the answer is `Derive.refSelection` — a reference with no pydap code in it: every condition of
+the chain, then its record ranges IN THE ORDER THEY WERE APPLIED (Python list slicing), then the columns of the LAST
+column list / the child.  The record ranges reach the server as ONE hyperslab (`combine_slices`, C03): the theorem
+contains C03's composition law for slices of strided slices (`Derive.pySlice_combine`). -/
+section DerivedReads
+open Pydap.Seq Pydap.SeqClient Pydap.Derive
+open Pydap.IterData (Op Item RCond rsplitHead refCond cellOf)
+variable {A : Type}
+
+/-- **A derived object reads the same data as a fresh client applying the same selection — by name.**
+    The dataset is opened with `open_url(url)` (object `r` of a well-formed client heap is the proxy of the flat
+    sequence `id` with columns `names`).  Any chain `l` of derivations is applied, with an arbitrary history of other
+    client events before each of them.  `ChainOk`: column lists are non-empty, duplicate-free lists of columns (ANY
+    columns of the sequence, also after an earlier list: the last list decides columns and order); comparisons name
+    columns of the sequence; slices and integers are non-negative (steps ≥ 1); after a child only slices, integers and
+    `colfilt` follow.  `RangeOk`: the combined range is not empty-by-stop (`stop = 0` prints as unbounded, C03).
+    Then the GET the derived proxy issues is answered by the server with exactly `refSelection chain rows`. -/
+theorem C14_derived_reads_reference (cmp : Op → A → A → Bool) (enc : A → List Char) (lit : List Char → Option A)
+    (henc : ∀ v, lit (enc v) = some v) (id : Name) (hhead : ∀ v, rsplitHead (enc v) ≠ id)
+    (hst : ∀ v ch r, enc v = ch :: r → ch ≠ '=' ∧ ch ≠ '~')
+    (names : List Name) (hnd : names.Nodup) (hid : id ∉ names)
+    (hidok : NameOk id) (hnames : ∀ k ∈ names, NameOk k)
+    (rows : List (List A)) (hrows : ∀ r ∈ rows, r.length = names.length)
+    (hlen : (rows.length : Int) ≤ MAXSIZE) (bk : Backend)
+    (h : Heap) (w : WF h) (r : Nat) (base : Name) (σ : Sess) (tm : Nat)
+    (hs : specAt h r = some (specOf (openTmpl id names ⟨none, []⟩) (openProxy base σ tm ⟨none, []⟩)))
+    (l : List (List Ev × DStep A))
+    (hok : ChainOk enc names false (l.map (·.2)))
+    (hr : RangeOk (((l.map (·.2)).map toCOp).foldl (accStep enc id) (openAcc id names ⟨none, []⟩)).sl) :
+    let d := deriveAmid h r (l.map fun x => (x.1, keyOfStep enc [id] (openProxy base σ tm ⟨none, []⟩) x.2))
+    ∃ q out, objQuery d.1 d.2 = some q ∧
+      refSelection cmp names (l.map (·.2)) rows = some out ∧
+      serveQuery cmp enc lit bk id names rows q = some (.ok (out.map Item.row)) := by
+  intro d
+  let chain := l.map (·.2)
+  let a0 : Acc := openAcc id names ⟨none, []⟩
+  let a := (chain.map toCOp).foldl (accStep enc id) a0
+  have hne : [] ∉ names := fun hm => (hnames [] hm).1 rfl
+  have hkeys : ∀ k ∈ names, k ∈ names := fun k hk => hk
+  have hops := opsOk_of_chainOk enc names false chain hok
+  -- C14: the derived object is described by the accumulation (after a child: the single column)
+  obtain ⟨hchain, hinv⟩ := chain_spec enc base id names σ hidok hnames (openProxy base σ tm ⟨none, []⟩) chain false a0
+    hok (by intro e; cases e)
+  have hsnd : (l.map fun x => (x.1, keyOfStep enc [id] (openProxy base σ tm ⟨none, []⟩) x.2)).map Prod.snd
+      = chain.map (keyOfStep enc [id] (openProxy base σ tm ⟨none, []⟩)) := by
+    simp [chain, List.map_map, Function.comp_def]
+  have hspec := deriveAmid_spec h w r (specOfAcc base id names σ false a0) _
+    (l.map fun x => (x.1, keyOfStep enc [id] (openProxy base σ tm ⟨none, []⟩) x.2))
+    (by rw [hs, open_spec]; rfl) (by rw [hsnd]; exact hchain)
+  -- invariants of the accumulation
+  have hvis0 : VisOk names a0 := by intro hsub; cases hsub
+  obtain ⟨hsel, hvis⟩ := run_invariants enc lit id names names hidok hnames hkeys henc hhead hst
+    (chain.map toCOp) a0 [] hops ⟨by intro x hx; simp [a0, openAcc] at hx, [], rfl, rfl⟩ hvis0
+  have hq := specQuery_acc base id names names σ hidok hnames (seenAfter false chain) a hinv hvis hkeys
+  obtain ⟨conds, hres, hreq⟩ := query_request lit base id names names σ a _ hidok hnames hkeys hvis hsel hr
+  have hcols : ∀ k ∈ (if a.sub then some a.vis else none).getD names, k ∈ names := by
+    intro k hk
+    cases hsub : a.sub with
+    | false => simpa [hsub] using hk
+    | true => rw [hsub] at hk; exact (hvis hsub).2.2 k (by simpa using hk)
+  have hcolsEq : (if a.sub then a.vis else names) = chain.foldl stepCols names := cols_eq enc id names chain a0
+  have hcols' : ∀ k ∈ chain.foldl stepCols names, k ∈ names := by
+    intro k hk
+    rw [← hcolsEq] at hk
+    apply hcols k
+    cases hsub : a.sub <;> simpa [hsub] using hk
+  obtain ⟨out, hout, href⟩ := refEval_refSelection cmp enc id names rows hrows chain hok hcols'
+  refine ⟨_, out, objQuery_of_specAt hspec, hout, ?_⟩
+  rw [hq]
+  unfold serveQuery
+  cases hp : parseCE (specQuery (accSpec base id names σ a)) with
+  | none => rw [hp] at hreq; simp at hreq
+  | some ps =>
+    obtain ⟨proj, sel⟩ := ps
+    rw [hp] at hreq
+    simp only [Option.bind_some] at hreq
+    simp only [hreq, Option.map_some, Option.some.injEq]
+    rw [C04.C04_serve_any_backend cmp enc lit henc id hhead names hnd hid hne rows hrows bk _ _ hres hcols]
+    simp only
+    rw [refEval_wire cmp names _ _ a.sl rows hlen, ← href]
+    have e1 : ([] : List (RCond A)) ++ (chain.map toCOp).flatMap opRcs = chain.flatMap stepConds := by
+      rw [List.nil_append]; exact conds_eq chain
+    rw [e1, ← hcolsEq]
+    cases hsub : a.sub <;> rfl
+
+end DerivedReads
 
 /-! ### the tie by translation: the ids and the record range of `seqReq` are what the source writes
 
